@@ -119,9 +119,13 @@ def c18(ctx, t0):
         res.append(ctx.run_child('loader', [hx, 'c18'], T(ctx, 400, 3000)))
     if want(ctx, 'reload'):
         res.append(ovl_stage(ctx, 'reload', 'TestVerifC18Reload', T(ctx, 600, 3000)))
+    if want(ctx, 'reload-binary'):
+        ctx.build_agent()
+        res.append(ctx.run_child('reload-binary', [hx, 'c18bin'], T(ctx, 600, 1800)))
     floors = {'expect:reject': (counters(res, 'expect:reject'), 100), 'expect:accept': (counters(res, 'expect:accept'), 10),
               'accepted_sets_exercised': (counters(res, 'accepted_sets_exercised'), 30), 'reloads': (counters(res, 'reloads'), 20),
-              'background_requests_answered': (counters(res, 'background_requests_answered'), 100), 'state_probes': (counters(res, 'state_probes'), 100)}
+              'background_requests_answered': (counters(res, 'background_requests_answered'), 100), 'state_probes': (counters(res, 'state_probes'), 100),
+              'signals': (counters(res, 'signals'), 8), 'client_requests_answered': (counters(res, 'client_requests_answered'), 50)}
     return finish(ctx, 'exploration', res, COMMON_ASSUME + [
         'parameter values whose memory demand exceeds 256 MiB or whose run time is unbounded (scrypt cost 20..31, argon2id time/length near 2^32) are not generated: their outcome depends on the host',
         'duplicate parameter-set ids are not mentioned by the property and are left unasserted'], floors, t0)
